@@ -230,6 +230,7 @@ func (g *Gen) newCtx(fn *ssa.Function, fc *FuncContract, mode Mode) *FnCtx {
 	c.havocCalls = map[string]int{}
 	c.watch = map[string]bool{}
 	c.termSorts = map[string]string{}
+	c.heapTy = map[string]types.Type{}
 	c.resetPass()
 	if fn != nil && fn.Pkg != nil {
 		c.pkg = fn.Pkg.Pkg
@@ -258,6 +259,7 @@ func (c *FnCtx) resetPass() {
 	c.notes = nil
 	c.reach = "true"
 	c.known = map[string]map[string]string{}
+	c.known2 = map[string]map[string]string{}
 }
 
 func modeOf(fc *FuncContract) Mode {
@@ -463,7 +465,7 @@ func (c *FnCtx) lemmaTerm(l *LemmaDef) string {
 	if len(l.Vars) == 0 {
 		return c.trClause(env, l.Clause)
 	}
-	q := &EQuant{Forall: true, Body: l.Clause.E}
+	q := &EQuant{Forall: true, Body: l.Clause.E, Trigs: l.Trigs}
 	for _, v := range l.Vars {
 		q.Vars = append(q.Vars, QVar{v.Name, v.Type})
 	}
